@@ -63,8 +63,9 @@ def version_pairs(ctx, n):
     return out
 
 
-BOUNDARY = ['1', '1-0', '0:1', '1.0', '1.00', '1.0-0', '1~', '1~~', '1~a', '1a', '1+', '1.', '1-1', '1-1~',
-            '1:0', '2', '10', '9', '09', '1.0~rc1', '1.0-1', '1.0-1a', '1.0+b', '1-2-0', '1-2', '0:1-2-0', '1.a', '1.-a']
+BOUNDARY = [b for b in ['1', '1-0', '0:1', '1.0', '1.00', '1.0-0', '1~0', '1~~0', '1~a', '1a', '1+0', '1.0.0', '1-1', '1a-~',
+            '1:0', '2', '10', '9', '09', '1.0~rc1', '1.0-1', '1.0-1a', '1.0+b', '1-2-0', '1-2', '0:1-2-0', '1.a', '1.-a',
+            '1-0~', '1~', '01', '1-00', '00:1', '1a-1~'] if valid(b)]
 
 
 def dpkg_available():
